@@ -1486,13 +1486,28 @@ fn ask_ping(addr: std::net::SocketAddr, ping: &[u8]) -> bool {
 /// timeout may legitimately drop a connection whose first bytes arrive late (this process descheduled between connect and
 /// write), so there a few fresh connections are tried — the statement is about the endpoint, not about one connection.
 fn still_serves(addr: std::net::SocketAddr, has_read_timeout: bool, ping: &[u8]) -> bool {
-    // (a machine with a load average of 70 and a one-worker runtime can take seconds to answer: two tries even without a timeout knob)
+    // "Dead" means dead: an endpoint that is merely slow to answer (a one-worker runtime shared by every async endpoint and
+    // client of this process, a cold or busy machine) is not what the oracle is about.  A few quick tries first; if none is
+    // answered, keep asking on fresh connections for up to 45 s before calling the endpoint dead (a crashed accept loop or a
+    // panicked serving task stays dead, so nothing real is lost; a run stops after 12 oracle failures anyway).
     for _ in 0..(if has_read_timeout { 6 } else { 2 }) {
         HEARTBEAT.fetch_add(1, std::sync::atomic::Ordering::Relaxed);
         if ask_ping(addr, ping) { return true; }
     }
+    let t0 = std::time::Instant::now();
+    while t0.elapsed() < std::time::Duration::from_secs(45) {
+        HEARTBEAT.fetch_add(1, std::sync::atomic::Ordering::Relaxed);
+        std::thread::sleep(std::time::Duration::from_millis(250));
+        if ask_ping(addr, ping) {
+            SLOW_ANSWERS.fetch_add(1, std::sync::atomic::Ordering::Relaxed);
+            return true;
+        }
+    }
     false
 }
+
+/// endpoints that answered only after the quick tries (recorded in the evidence; never a failure)
+static SLOW_ANSWERS: std::sync::atomic::AtomicU64 = std::sync::atomic::AtomicU64::new(0);
 
 const READ_TIMEOUT_MS: u64 = 30;
 
@@ -2490,5 +2505,6 @@ fn main() {
             }
         }
     }
+    out.extra.insert("endpoints_slow_to_answer".into(), serde_json::json!(SLOW_ANSWERS.load(std::sync::atomic::Ordering::Relaxed)));
     out.finish();
 }
